@@ -187,6 +187,11 @@ class C04(HistoryCampaign):
             sc["edits"] = [{"before_segment": 1, "fresh_calculator": True}]
         if rnd.random() < 0.2:
             sc["calc_used_before"] = True
+        if sc["driver"] in ("Isobaric", "Isotension") and rnd.random() < 0.15:
+            # the box is rescaled after the simulation object was built and before it is run for the first time
+            from simkit import gen
+
+            sc.setdefault("edits", []).append({"before_segment": 0, "cell_scale": gen.rfloat(rnd, 0.85, 1.2, 3)})
         if rnd.random() < 0.5:
             sc["files"] = {"logfile": {"name": "log", "as": "object", "mode": "a"}, "logging_interval": 1}
         return sc
